@@ -77,7 +77,8 @@ def gen_scenario(r, hostile_p=0.3, ops=None, allow_symlinks=True, for_model=Fals
             d = r.choice(spec["roots"])
             name = "sl%d" % k
             # absolute targets are filled in at materialisation time through a marker
-            spec["entries"].append({"t": "l", "p": d + "/" + name, "to": "@ABS@/" + tgt["p"]})
+            # (four in ten with a relative target, as `ln -s ../x/file` makes them: filled in by materialise)
+            spec["entries"].append({"t": "l", "p": d + "/" + name, "to": "@ABS@/" + tgt["p"], "rel": r.random() < 0.4})
     if n_roots >= 2 and r.random() < 0.35:
         g["isolate"] = True
     if r.random() < 0.3:
@@ -147,7 +148,10 @@ def materialise(sc, d, scratch=None):
         sc["mounted"] = bool(scratch.mount_tmpfs([mp]))
     for e in spec["entries"]:
         if e["t"] == "l" and e["to"].startswith("@ABS@/"):
-            e["to"] = troot + "/" + e["to"][6:]
+            if e.get("rel"):
+                e["to"] = os.path.relpath(troot + "/" + e["to"][6:], os.path.dirname(troot + "/" + e["p"]))
+            else:
+                e["to"] = troot + "/" + e["to"][6:]
     tree.materialise(spec, troot)
     roots_abs = [fse(os.path.join(troot, rt)) for rt in spec["roots"]]
     if sc["cfg"].get("isolate_rel"):
